@@ -56,13 +56,14 @@ def c19_diff(n=300):
             vs = c19.generate(0, run, "quick")["world"]["versions"]
             for a, b in zip(vs, vs[1:]):
                 pairs += 1
-                with open(os.path.join(d, "a"), "w") as f:
+                with open(os.path.join(d, "a"), "w", encoding="utf-8", newline="\n") as f:
                     f.write(c19._text(a))
-                with open(os.path.join(d, "b"), "w") as f:
+                with open(os.path.join(d, "b"), "w", encoding="utf-8", newline="\n") as f:
                     f.write(c19._text(b))
                 p = subprocess.run(["diff", "-e", os.path.join(d, "a"), os.path.join(d, "b")],
-                                   capture_output=True, text=True)
-                for script in (p.stdout.splitlines(True),
+                                   capture_output=True)
+                # lines end at "\n" only (form feeds etc. are ordinary characters of a line)
+                for script in ([l + "\n" for l in p.stdout.decode("utf-8").split("\n")[:-1]],
                                [l + "\n" for l in c19.ed_script(a, b)]):
                     lines = [l + "\n" for l in a]
                     ds.patch_lines(lines, ds.patches_from_ed_script(script))
@@ -90,6 +91,11 @@ def c06_ar(n=200):
             uniq = []
             for m in ms:
                 if m["name"] in seen or m["name"].startswith("-") or m["name"] in (".", ".."):
+                    continue
+                if len(m["name"]) > 15 or not m["name"].isascii() or not m["name"].isprintable() \
+                        or m["name"] != m["name"].strip():
+                    # GNU ar cannot show these: it drops the 16th character of a name that
+                    # fills the field, and its listing is locale dependent for the rest
                     continue
                 seen.add(m["name"])
                 uniq.append(m)
@@ -159,7 +165,8 @@ def c07_dpkg(n=60):
                 bad.append({"run": run, "what": "dpkg-deb -f", "err": p.stderr[:300]})
                 continue
             c = subprocess.run(["dpkg-deb", "--fsys-tarfile", path], capture_output=True)
-            t = subprocess.run(["tar", "-t"], input=c.stdout, capture_output=True)
+            t = subprocess.run(["tar", "--quoting-style=literal", "-t"], input=c.stdout,
+                               capture_output=True)
             names = sorted(x.rstrip("/") for x in t.stdout.decode("utf-8", "replace").split("\n") if x)
             wantn = sorted(["."] + ["./" + x for x in model["dirs"]] + ["./" + n for n, _ in model["files"]])
             if c.returncode or names != wantn:
